@@ -190,12 +190,13 @@ class Sched:
         r = self._runnable()
         if not r:
             blocked = [t for t in self.tasks if t.state in ("blocked", "joining")]
+            if any(t.state == "parked" for t in self.tasks):
+                # quiescence: somebody stopped for good and nobody else can run -> end of the run (not a deadlock)
+                self.quiesced = True
+                self.quiescent_state = [(t.name, t.state, getattr(t.cond, "name", None)) for t in self.tasks]
+                self.abort = _Abort()
+                return self._pick(me)
             if not blocked:
-                if any(t.state == "parked" for t in self.tasks):
-                    # quiescence: everything that is not finished is parked for good -> end of the run
-                    self.quiesced = True
-                    self.abort = _Abort()
-                    return self._pick(me)
                 return None
             # deadlock: nobody can run.  Record it, then let one wait time out (as the mailbox timeout
             # eventually would) so that the run unwinds through strax's own timeout handling.
@@ -268,9 +269,12 @@ class Sched:
     def park(self):
         """Stop this task for good (only an abort / quiescence ends it)."""
         me = self.me()
-        while True:
+        while self.abort is None:
             me.state = "parked"
             self._switch(me)
+        me.state = "runnable"
+        if me.tid != 0:
+            raise _Abort()
 
 
 class SchedThreading(types.ModuleType):
